@@ -524,6 +524,10 @@ class StrategyBase(Node):
         Universe contains the data passed in when creating a Backtest.
         Use this data to determine strategy logic.
         """
+        # the sub-strategy price columns are written by update, which also
+        # brings a just-created strategy's clock up to date
+        if self.root.stale:
+            self.root.update(self.root.now, None)
         # avoid windowing every time
         # if calling and on same date return
         # cached value
@@ -859,6 +863,8 @@ class StrategyBase(Node):
             for c in self._strat_children:
                 # TODO: optimize ".loc" here as well
                 self._universe.loc[date, c] = self.children[c].price
+            # drop the cached window: it was cut before these cells were written
+            self._last_chk = None
 
         # Cash should track the unallocated capital at the end of the day, so
         # we should update it every time we call "update".
